@@ -750,6 +750,77 @@ def rule_r6(chk, prog):
     chk.floor('C10.R6', '__exit__ methods', n, 1)
 
 
+def rule_r7(chk, prog):
+    chk.rule('C10.R7', 'a time limit is read when a check runs, not when the '
+             'module is imported: options that ddSMT assigns at run time '
+             '(the default time limits after the golden runs) never occur in '
+             'a parameter default, a decorator, a class body or at module '
+             'level')
+    written = {}
+    for m in prog.pkg_modules():
+        if 'tests' in m.rel():
+            continue
+        for st in ast.walk(m.tree):
+            tgts = []
+            if isinstance(st, ast.Assign):
+                tgts = st.targets
+            elif isinstance(st, ast.AugAssign):
+                tgts = [st.target]
+            for t in tgts:
+                o = opt_read(t)
+                if o:
+                    written.setdefault(o, m.loc(st))
+    n = 0
+    for m in prog.pkg_modules():
+        if 'tests' in m.rel():
+            continue
+
+        def import_time_exprs():
+            for x in ast.walk(m.tree):
+                if isinstance(x, (ast.FunctionDef, ast.AsyncFunctionDef,
+                                  ast.Lambda)):
+                    for d in x.args.defaults + [
+                            k for k in x.args.kw_defaults if k is not None]:
+                        yield ('default argument of '
+                               + getattr(x, 'name', '<lambda>'), d)
+                    for d in getattr(x, 'decorator_list', []):
+                        yield (f'decorator of {x.name}', d)
+                elif isinstance(x, ast.ClassDef):
+                    for st in x.body:
+                        if not isinstance(st, (ast.FunctionDef,
+                                               ast.ClassDef)):
+                            yield (f'body of class {x.name}', st)
+            for st in m.tree.body:
+                if not isinstance(st, (ast.FunctionDef, ast.ClassDef,
+                                       ast.Import, ast.ImportFrom)):
+                    yield ('module level', st)
+
+        for (what, e) in import_time_exprs():
+            for a in ast.walk(e):
+                if isinstance(a, (ast.FunctionDef, ast.Lambda)):
+                    continue
+                o = opt_read(a) if isinstance(a, ast.Attribute) else None
+                if not o:
+                    continue
+                n += 1
+                ok = o not in written
+                chk.check('C10.R7', m.name, f'{what}: {unparse(a)}', ok,
+                          f'--{o.replace("_", "-")} is read at import time '
+                          f'({what}) but assigned later at run time '
+                          f'({written.get(o)}): the value seen by every '
+                          'check is the one from the command line (None '
+                          'when the option was not given), so the automatic '
+                          'time limit never takes effect and a candidate on '
+                          'which the command hangs stalls ddSMT',
+                          loc=m.loc(a), nontrivial=True)
+    chk.instance('C10.R7', 'package', f'{n} option reads at import time; '
+                 f'options assigned at run time: {sorted(written)}', True,
+                 'none of them is assigned later', nontrivial=False)
+    if not {'timeout', 'timeout_cc'} <= set(written):
+        raise AnalysisError('C10.R7: the run-time assignment of the default '
+                            'time limits was not found')
+
+
 def run(tier):
     prog = Program()
     chk = Check(
@@ -773,6 +844,7 @@ def run(tier):
     chk.guard(rule_r4, chk, prog)
     chk.guard(rule_r5, chk, prog)
     chk.guard(rule_r6, chk, prog)
+    chk.guard(rule_r7, chk, prog)
     extra = None
     if tier == 'thorough':
         from .. import selftest
